@@ -333,10 +333,27 @@ impl Assembler for IntervalAssembler {
         );
     }
     fn build_mul(&mut self, out_reg: u8, lhs_reg: u8, rhs_reg: u8) {
+        extern "sysv64" fn interval_mul(
+            lhs: Interval,
+            rhs: Interval,
+        ) -> Interval {
+            lhs * rhs
+        }
+        // The slow path below calls out, so the callee-saved registers must
+        // be backed up on every path through this clause.
+        self.ensure_callee_regs_saved();
         dynasm!(self.0.ops
             ; vpshufd xmm2, Rx(reg(lhs_reg)), 0b01000001_i8
             ; vpshufd xmm1, Rx(reg(rhs_reg)), 0b00010001_i8
             ; vmulps xmm2, xmm2, xmm1 // xmm2 contains all 4 results
+
+            // A NaN product (0 * inf, or a NaN input) must be skipped, but
+            // `vminps` / `vmaxps` return their second operand if either one
+            // is NaN, which can drop a valid product instead.  This is rare,
+            // so leave it to the Rust implementation.
+            ; vcmpunordps xmm1, xmm2, xmm2
+            ; vptest xmm1, xmm1
+            ; jnz >S
 
             // Extract the horizontal minimum into out
             ; vpshufd xmm1, xmm2, 0b00001110 // xmm1 = [_, _, 3, 2]
@@ -352,9 +369,26 @@ impl Assembler for IntervalAssembler {
 
             // Splice the two together
             ; vunpcklps Rx(reg(out_reg)), Rx(reg(out_reg)), xmm2
+            ; jmp >E
+
+            ; S:
         );
+        self.call_fn_binary(out_reg, lhs_reg, rhs_reg, interval_mul);
+        dynasm!(self.0.ops
+            ; E:
+        );
+        self.0.ops.commit_local().unwrap();
     }
     fn build_div(&mut self, out_reg: u8, lhs_reg: u8, rhs_reg: u8) {
+        extern "sysv64" fn interval_div(
+            lhs: Interval,
+            rhs: Interval,
+        ) -> Interval {
+            lhs / rhs
+        }
+        // The slow path below calls out, so the callee-saved registers must
+        // be backed up on every path through this clause.
+        self.ensure_callee_regs_saved();
         dynasm!(self.0.ops
             ; vpxor xmm1, xmm1, xmm1 // xmm1 = 0.0
             ; vcomiss Rx(reg(rhs_reg)), xmm1
@@ -376,6 +410,11 @@ impl Assembler for IntervalAssembler {
             ; vpshufd xmm1, Rx(reg(rhs_reg)), 0b00010001_i8
             ; vdivps xmm2, xmm2, xmm1 // xmm2 contains all 4 results
 
+            // A NaN quotient (inf / inf) must be skipped; see `build_mul`
+            ; vcmpunordps xmm1, xmm2, xmm2
+            ; vptest xmm1, xmm1
+            ; jnz >S
+
             // Extract the horizontal minimum into out
             ; vpshufd xmm1, xmm2, 0b00001110 // xmm1 = [_, _, 3, 2]
             ; vminps xmm1, xmm1, xmm2 // xmm1 = [_, _, min(3, 1), min(2, 0)]
@@ -390,7 +429,12 @@ impl Assembler for IntervalAssembler {
 
             // Splice the two together
             ; vunpcklps Rx(reg(out_reg)), Rx(reg(out_reg)), xmm2
+            ; jmp >E
 
+            ; S:
+        );
+        self.call_fn_binary(out_reg, lhs_reg, rhs_reg, interval_div);
+        dynasm!(self.0.ops
             ; E:
         );
         self.0.ops.commit_local().unwrap();
